@@ -336,10 +336,15 @@ package main
 // a code of the 30 s period that was already accepted is not evaluated again (C05 one-time)
 //@ pure func totpPeriodOf(t time_.Time) int64 = int64(fpFloor(float64(timeNanos(t) / 1000000000) / float64(30)))
 //@ ghost var ghostTotpGateSeen int64
+//@ ghost var ghostSavedTOTP bool
 //@ func (*RuntimeState).validateUserTOTP
 //@   requires ghostAuthed && username == ghostAuthUser                                                    #C08.totp-own-profile @C08,C06
 //@   ghostset ghostVerifiedBits int = ghostVerifiedBits | AuthTypeTOTP if ret0 && ret1 == nil && username == ghostAuthUser
 //@   atcall github.com/pquerna/otp/totp.Validate requires (passcode string, secret string) :: ghostProfileUser == username && ghostProfile.LastSuccessfullTOTPCounter != totpPeriodOf(t)  #C05.totp-one-time @C05
+// ... and an accepted code is remembered: unless the profile came from the offline cache, acceptance is reported only
+// after the period was saved in the user's profile
+//@   atcall (*RuntimeState).SaveUserProfile sets ghostSavedTOTP bool (s2 *RuntimeState, username2 string, profile2 *userProfile, err2 error) :: true if err2 == nil && username2 == username && old(profile2.LastSuccessfullTOTPCounter) == totpPeriodOf(t)
+//@   ensures ret0 && ret1 == nil && !ghostProfileFromCache ==> ghostSavedTOTP   #C05.totp-accepted-period-saved @C05
 // the last-check time seen in the critical section entered most recently (taking the mutex forgets the map)
 //@   atcall sync.Mutex).Lock sets ghostTotpGateSeen int64 (m *sync.Mutex) :: timeNanos(state.totpLocalRateLimit[username].lastCheckTime)
 //@   atcall github.com/pquerna/otp/totp.Validate requires (passcode string, secret string) :: ghostTotpGateSeen + 2000000000 <= nowNanos()  #C14.totp-spacing @C14,C16
